@@ -2,6 +2,9 @@ package zzverif
 
 import (
 	"context"
+	"os"
+	"path/filepath"
+	"time"
 
 	"encoding/json"
 	"fmt"
@@ -38,7 +41,60 @@ type reconfIn struct {
 	Histories []struct {
 		Run   int          `json:"run"`
 		Steps []reconfStep `json:"steps"`
+		// File: the long-lived server is configured from a watched configuration file and every change is made by
+		// replacing that file (the way a deployment is reconfigured); otherwise through Config.Set
+		File bool `json:"file"`
 	} `json:"histories"`
+}
+
+func reconfWriteFile(t *testing.T, path string, depth, width int, ns []string) {
+	var b strings.Builder
+	fmt.Fprintf(&b, "limit:\n  max_read_depth: %d\n  max_read_width: %d\nnamespaces:\n", depth, width)
+	s := append([]string{}, ns...)
+	sort.Strings(s)
+	for _, n := range s {
+		fmt.Fprintf(&b, "  - name: %s\n", n)
+	}
+	tmp := path + ".tmp"
+	if err := os.WriteFile(tmp, []byte(b.String()), 0o600); err != nil {
+		t.Fatal(err)
+	}
+	if err := os.Rename(tmp, path); err != nil {
+		t.Fatal(err)
+	}
+}
+
+// reconfFileServer starts the long-lived server from a watched configuration file.
+func reconfFileServer(t *testing.T, path string) *storeEnv {
+	reconfWriteFile(t, path, 8, 100, []string{"n", "m"})
+	reg := driver.VerifNewFileRegistry(t, path)
+	writeOrderedRaw(t, reg, reconfData())
+	return envFor(t, reg)
+}
+
+// reconfAwait waits until the configuration store of the server shows the values now in the file.
+func reconfAwait(t *testing.T, e *storeEnv, s reconfStep) bool {
+	want := append([]string{}, s.Ns...)
+	sort.Strings(want)
+	deadline := time.Now().Add(15 * time.Second)
+	for time.Now().Before(deadline) {
+		c := e.reg.Config(context.Background())
+		src := c.Source()
+		var got []string
+		if nm, err := c.NamespaceManager(); err == nil {
+			if nss, err := nm.Namespaces(context.Background()); err == nil {
+				for _, n := range nss {
+					got = append(got, n.Name)
+				}
+			}
+		}
+		sort.Strings(got)
+		if src.Int(config.KeyLimitMaxReadDepth) == s.Depth && src.Int(config.KeyLimitMaxReadWidth) == s.Width && strings.Join(got, ",") == strings.Join(want, ",") {
+			return true
+		}
+		time.Sleep(5 * time.Millisecond)
+	}
+	return false
 }
 
 func init() { families["reconf"] = famReconf }
@@ -175,12 +231,32 @@ func famReconf(t *testing.T) {
 			continue
 		}
 		t.Run(fmt.Sprintf("h%d", h.Run), func(t *testing.T) {
-			live := reconfServer(t, 8, 100, []string{"n", "m"}, "plain")
+			var live *storeEnv
+			cfgFile := ""
+			if h.File {
+				dir, err := filepath.EvalSymlinks(t.TempDir())
+				if err != nil {
+					t.Fatal(err)
+				}
+				cfgFile = filepath.Join(dir, "keto.yaml")
+				live = reconfFileServer(t, cfgFile)
+			} else {
+				live = reconfServer(t, 8, 100, []string{"n", "m"}, "plain")
+			}
 			bg := context.Background()
 			var diffs []map[string]any
 			nreq, afterChange := 0, 0
 			changed := false
 			for si, s := range h.Steps {
+				if s.Op == "set" && h.File {
+					reconfWriteFile(t, cfgFile, s.Depth, s.Width, s.Ns)
+					if !reconfAwait(t, live, s) {
+						out.write(map[string]any{"h": hi, "noreload": true, "step": si})
+						return
+					}
+					changed = true
+					continue
+				}
 				if s.Op == "set" {
 					var err error
 					switch s.Key {
@@ -213,7 +289,7 @@ func famReconf(t *testing.T) {
 						"long_lived_server": trunc(got, 600), "server_started_with_this_config": trunc(want, 600)})
 				}
 			}
-			out.write(map[string]any{"h": hi, "requests": nreq, "after_change": afterChange, "diffs": diffs})
+			out.write(map[string]any{"h": hi, "requests": nreq, "after_change": afterChange, "diffs": diffs, "file": h.File})
 		})
 	}
 }
